@@ -59,41 +59,50 @@ func r101FieldNumbers(c *an.Ctx) {
 			var probs []string
 			// the number variable is assigned from rpcTag(<rv>.Attribute) in this loop body
 			okNum, okName := false, false
-			numObj, nameObj := an.ObjOf(info, numArg), an.ObjOf(info, nameArg)
-			ast.Inspect(rs.Body, func(x ast.Node) bool {
-				as, isAs := x.(*ast.AssignStmt)
-				if !isAs {
+			// definitions of the printed values in this loop body (assignments, var declarations), or the
+			// argument itself when the value is computed in place
+			defsOf := func(arg ast.Expr) []ast.Expr {
+				o := an.ObjOf(info, arg)
+				if o == nil {
+					return []ast.Expr{arg}
+				}
+				var out []ast.Expr
+				ast.Inspect(rs.Body, func(x ast.Node) bool {
+					switch d := x.(type) {
+					case *ast.AssignStmt:
+						for i, l := range d.Lhs {
+							if i < len(d.Rhs) && an.ObjOf(info, l) == o {
+								out = append(out, d.Rhs[i])
+							}
+						}
+					case *ast.ValueSpec:
+						for i, nm := range d.Names {
+							if i < len(d.Values) && info.Defs[nm] == o {
+								out = append(out, d.Values[i])
+							}
+						}
+					}
 					return true
-				}
-				for i, l := range as.Lhs {
-					if i >= len(as.Rhs) {
-						continue
-					}
-					o := an.ObjOf(info, l)
-					if o != nil && o == numObj {
-						if rc, isCall := an.Unparen(as.Rhs[i]).(*ast.CallExpr); isCall && an.CalleeName(info, rc) == an.P("grpc/codegen")+".rpcTag" && len(rc.Args) == 1 {
-							if root, path, okp := an.FieldPath(rc.Args[0]); okp && an.ObjOf(info, root) == rv && len(path) == 1 && path[0] == "Attribute" {
-								okNum = true
-							} else {
-								probs = append(probs, "the field number is the tag of "+types.ExprString(rc.Args[0])+", not of the attribute being printed")
-							}
-						}
-					}
-					if o != nil && o == nameObj {
-						mentionsName := false
-						ast.Inspect(as.Rhs[i], func(y ast.Node) bool {
-							if se, isSel := y.(*ast.SelectorExpr); isSel && se.Sel.Name == "Name" && an.ObjOf(info, se.X) == rv {
-								mentionsName = true
-							}
-							return true
-						})
-						if mentionsName {
-							okName = true
-						}
+				})
+				return out
+			}
+			for _, def := range defsOf(numArg) {
+				if rc, isCall := an.Unparen(def).(*ast.CallExpr); isCall && an.CalleeName(info, rc) == an.P("grpc/codegen")+".rpcTag" && len(rc.Args) == 1 {
+					if root, path, okp := an.FieldPath(rc.Args[0]); okp && an.ObjOf(info, root) == rv && len(path) == 1 && path[0] == "Attribute" {
+						okNum = true
+					} else {
+						probs = append(probs, "the field number is the tag of "+types.ExprString(rc.Args[0])+", not of the attribute being printed")
 					}
 				}
-				return true
-			})
+			}
+			for _, def := range defsOf(nameArg) {
+				ast.Inspect(def, func(y ast.Node) bool {
+					if se, isSel := y.(*ast.SelectorExpr); isSel && se.Sel.Name == "Name" && an.ObjOf(info, se.X) == rv {
+						okName = true
+					}
+					return true
+				})
+			}
 			if !okNum && len(probs) == 0 {
 				probs = append(probs, "the number printed is not assigned from rpcTag(<loop element>.Attribute)")
 			}
